@@ -158,12 +158,15 @@ def emitCmd (st : PState) (k : Kind) (rel : Bool) : PState × List Char :=
 
 def isPlainInt (coord : List Char) : Bool := !coord.any (fun c => c == '.' || c == 'e' || c == 'E')
 
-/-- the trailing `00` → `e2` rewrite applies to plain integers longer than 2 bytes -/
+/-- the trailing `00` → `e2` rewrite applies to plain integers longer than 2 bytes whose last two bytes are `00` -/
 def rewrites00 (coord : List Char) : Bool :=
-  isPlainInt coord && decide (2 < coord.length) && (coord.drop (coord.length - 2) == ['0', '0'])
+  isPlainInt coord &&
+    (match coord.reverse with
+     | '0' :: '0' :: _ :: _ => true
+     | _ => false)
 
 def body00 (coord : List Char) : List Char :=
-  if rewrites00 coord then coord.take (coord.length - 2) ++ ['e', '2'] else coord
+  if rewrites00 coord then (coord.reverse.drop 2).reverse ++ ['e', '2'] else coord
 
 def needSep (st : PState) (c0 : Char) : Bool :=
   st.prevDigit && (isDigit c0 || (c0 == '.' && st.prevDigitIsInt))
